@@ -265,7 +265,9 @@ impl<'a> Filler<'a> {
             1 => UAString::from(format!("urn:{}", self.ascii_name(6))),
             _ => {
                 let mut t = self.text(8);
-                if t.is_empty() {
+                // an empty (not null) URI is a value of its own in the binary encoding; the text and JSON forms cannot tell it
+                // from a null one
+                if t.is_empty() && self.uri_replaces_index {
                     t.push_str("u;%");
                 }
                 // URIs that already contain the escape sequences of the text form (read last, so that byte strings
